@@ -226,6 +226,11 @@ def run(tier, seed):
     replay_point(ctl, e, 0)
     chk.control(len(ctl.violations) > 0, "expected values without the hidden bias compared equal")
     chk.extra["points_replayed"] = len(exps)
+    if not chk.violations:
+        # the call forms themselves: the argument-dispatch decorators behind every 1-D / batched call form
+        # (spec/Dispatch.tla, TraceDispatch.tla; see ext_dispatch.py)
+        import ext_dispatch
+        ext_dispatch.run(chk, tier, seed)
     chk.assumptions += ["parameters on the lattice t*ln B (B = 2, 3); the continuum in between is not decided",
                         "identities inside TLC hold modulo the primes 46327, 46307, 46279",
                         "values whose exact magnitude exceeds 1e300 are not judged", "float64 on CPU, tolerance 1e-9 relative"]
